@@ -341,7 +341,8 @@ class Ctx:
               "coverage": self.cov, "assumptions": self.assumptions,
               "wall_s": round(time.time() - self.t0, 2), "violations": len(self.violations),
               "repo_hash": repo_hash()}
-        evdir = os.environ.get("VERIF_EVIDENCE_DIR") or os.path.join(VERIF, "evidence")
+        # a run against a scratch copy (VERIF_REPO: seeded changes, negative controls) must not overwrite the evidence of /repo itself
+        evdir = os.environ.get("VERIF_EVIDENCE_DIR") or (os.path.join(VERIF, "evidence") if REPO == "/repo" else os.path.join(WORK, "evidence-scratch"))
         os.makedirs(evdir, exist_ok=True)
         with open(os.path.join(evdir, self.pid + ".json"), "w") as f:
             json.dump(ev, f, indent=1, default=str)
